@@ -478,3 +478,33 @@ func init() {
 		return 0
 	}
 }
+
+func init() {
+	// dbgfame <scenario>: run the seed, print per round of node 0 the witnesses (creator index, fame)
+	checks["dbgfame"] = func(args []string) int {
+		sc := sched.ScenarioByName(args[0])
+		x := sched.NewExec(sc, nil)
+		defer x.Close()
+		x.NoDigest = true
+		for _, a := range sc.Seed {
+			x.Step(a)
+		}
+		n := x.C.Nodes[0]
+		for r := 0; r <= n.Store.LastRound(); r++ {
+			ri, err := n.Store.GetRound(r)
+			if err != nil {
+				continue
+			}
+			s := ""
+			for w, f := range ri.VFame() {
+				idx := -1
+				if rec := x.C.Events[w]; rec != nil {
+					idx = rec.CreatorIdx
+				}
+				s += fmt.Sprintf(" k%d:%d", idx, f)
+			}
+			fmt.Printf("round %d decided=%v witnesses(fame 1=famous 2=not 0=undecided):%s\n", r, ri.VDecided(), s)
+		}
+		return 0
+	}
+}
